@@ -303,7 +303,20 @@ def discharge(ex, timeout_ms=20000, use_cvc5=True, cvc5_agree=False):
             s.add(p)
         rec = {"name": ob.name, "kind": ob.kind, "label": ob.label, "line": ob.line, "backend": "z3"}
         if ob.kind == "cover":
+            # vacuity guard: only `unsat` (a contradictory precondition / dead function) is an error;
+            # with quantified hypotheses `unknown` is the normal answer, so the budget is small
+            s.set("timeout", min(timeout_ms, 3000))
             r = s.check()
+            if r == z3.unknown:
+                # retry on the quantifier-free part: sat there does not prove sat of the whole, but
+                # unsat there would prove vacuity
+                s3 = mk_solver()
+                s3.set("timeout", 3000)
+                for p in ob.pc:
+                    if not ex.has_quant(p):
+                        s3.add(p)
+                if s3.check() == z3.unsat:
+                    r = z3.unsat
             rec["status"] = "covered" if r == z3.sat else ("vacuous" if r == z3.unsat else "unknown")
         else:
             if z3.is_true(ob.goal) and not ob.pc:
